@@ -3,6 +3,7 @@ import StunVerif.Props.C04Seal
 import StunVerif.Props.RefHashes
 import StunVerif.Props.SrcFnIntegrity
 import StunVerif.Props.SrcFnBuilder
+import StunVerif.Props.SrcFnWrite
 #print axioms StunVerif.C04.key_def
 #print axioms StunVerif.C04.validate_spec
 #print axioms StunVerif.C04.missing
@@ -38,3 +39,11 @@ import StunVerif.Props.SrcFnBuilder
 #print axioms StunVerif.SrcFnBuilder.src_integrityBytes
 #print axioms StunVerif.SrcFnBuilder.src_addMessageIntegrity
 #print axioms StunVerif.SrcFnBuilder.src_addFingerprint_full
+#print axioms StunVerif.SrcFnWrite.src_byteLen
+#print axioms StunVerif.SrcFnWrite.src_writeAttrsLoop
+#print axioms StunVerif.SrcFnWrite.encBE_mod
+#print axioms StunVerif.SrcFnWrite.tid_word
+#print axioms StunVerif.SrcFnWrite.header_puts
+#print axioms StunVerif.SrcFnWrite.src_writeInto
+#print axioms StunVerif.SrcFnWrite.src_build
+#print axioms StunVerif.SrcFnWrite.build_is_source
